@@ -39,7 +39,7 @@ class H:
 
     def __init__(self, name, crate, functions, clauses, tier="quick", timeout=600, strength="bounded",
                  bound="", unwindset=None, kind="contract", finding=None, solver=None, extra=None, mem_gb=12,
-                 expect_covers=True):
+                 expect_covers=True, crosscheck=False):
         self.name = name              # harness fn name (unique)
         self.crate = crate
         self.functions = functions    # functions under contract
@@ -55,6 +55,7 @@ class H:
         self.extra = extra or []
         self.mem_gb = mem_gb
         self.expect_covers = expect_covers
+        self.crosscheck = crosscheck  # bounded cross-check beside a full-domain proof of the same clause: does not lower the level
 
 
 class C:
@@ -417,7 +418,7 @@ def native_replay(scratch, h, res, prop, pid):
     # find the file that holds this harness
     target = None
     for m in prop.MODULES:
-        src = open(os.path.join(VERIF, m.harness)).read()
+        src = expand_chunks(open(os.path.join(VERIF, m.harness)).read())
         if re.search(r"fn\s+" + re.escape(h.name) + r"\s*\(", src):
             target = m
     if target is None:
@@ -543,11 +544,26 @@ def run(pid, prop, a, harnesses, scratch, logdir, seed, t0):
     for h, f, det in known:
         print(f"KNOWN-FINDING: property={pid} {f['what']}")
     os.makedirs(os.path.join(VERIF, "replay"), exist_ok=True)
+    # one VIOLATION line per harness family (chunks `_kNN` of one contract are one family); native replay for the first few
+    fam_done, replays, budget = {}, {}, 5
     for h, det in violations:
+        fam = re.sub(r"_k\d\d$", "", h.name)
+        if fam in fam_done:
+            continue
         res = results.get(h.name)
-        rp = write_replay(pid, prop, h, det, res, scratch)
+        cex = None
+        if res is None:
+            x = [x for x in extra if x["h"] is h][0]
+            cex = replays.get(x.get("cex_harness"))
+        rp = write_replay(pid, prop, h, det, res, scratch, do_native=budget > 0, borrowed=cex)
+        budget -= 1
+        fam_done[fam] = rp
+        replays[h.name] = rp
+        also = [g.name for g, _ in violations if g is not h and re.sub(r"_k\d\d$", "", g.name) == fam]
         suffix = "" if rp["confirmed"] else " no-failing-input-found"
-        print(f"VIOLATION property={pid} replay={rp['path']}{suffix}")
+        print(f"VIOLATION property={pid} replay={rp['path']}{suffix}" )
+        if also:
+            print(f"  (same obligation also fails in: {', '.join(also)})")
         rc = 1
     write_evidence(pid, prop, a.tier, seed, harnesses, results, extra, assumptions_scan, cg, len(violations), time.time() - t0, known, undecided)
     if rc == 0 and undecided:
@@ -560,12 +576,15 @@ def run(pid, prop, a, harnesses, scratch, logdir, seed, t0):
     return rc
 
 
-def write_replay(pid, prop, h, det, res, scratch):
+def write_replay(pid, prop, h, det, res, scratch, do_native=True, borrowed=None):
     first = det[0] if isinstance(det, list) and det else {"id": "obligation", "description": str(det), "location": ""}
     name = re.sub(r"[^A-Za-z0-9_.-]", "_", f"{pid}-{h.name}-{first['id']}")[:150]
     path = os.path.join(VERIF, "replay", name + ".json")
     native = None
-    if res is not None:
+    if borrowed is not None:
+        native = dict(borrowed_from=borrowed["path"], fails_natively=borrowed["confirmed"],
+                      note="this verifier gives no model; the failing input comes from the bounded cross-check harness of the same clause")
+    if res is not None and do_native:
         try:
             if not res.get("playback"):
                 again = run_single_with_playback(scratch, h, os.path.join(VERIF, "logs", pid))
@@ -602,6 +621,11 @@ def do_replay(pid, prop, path):
         shutil.rmtree(scratch, ignore_errors=True)
 
 
+def is_clause(c):
+    d = c["description"]
+    return ".cover." in c["id"] or d.startswith('"') or d.startswith("|") or "__verif_" in d
+
+
 def write_evidence(pid, prop, tier, seed, harnesses, results, extra, scan, cg, nviol, wall, known, undecided):
     per = []
     obligations = discharged = 0
@@ -615,13 +639,12 @@ def write_evidence(pid, prop, tier, seed, harnesses, results, extra, scan, cg, n
         ok = [c for c in cs if c["status"] in ("SUCCESS", "SATISFIED")]
         obligations += len(cs)
         discharged += len(ok)
-        # "non-trivial" = contract clauses and lemma assertions (user assertions, postconditions, covers), not the generated safety checks
+        # "non-trivial" = contract clauses and lemma assertions (messages written in the harness, requires/ensures expressions, covers),
+        # not the generated safety checks
         for c in cs:
-            if re.search(r"\.(assertion|cover|postcondition|precondition)\.", "." + c["id"]) and "kani" not in c["location"]:
-                if h.name in c["location"] or "__verif_" in c["location"] or "contract" in c["description"].lower() or True:
-                    if re.search(r"\.(assertion|cover)\.", "." + c["id"]) and not c["description"].startswith("attempt to"):
-                        nontrivial.add((h.name, c["description"]))
-        if h.strength != "proved":
+            if is_clause(c):
+                nontrivial.add((h.name, c["description"]))
+        if h.strength != "proved" and not h.crosscheck:
             all_proved = False
         solver_time += r.get("verification_time_s") or 0
         per.append(dict(harness=h.name, state=r.get("state"), functions_under_contract=h.functions, contract_clauses=h.clauses,
@@ -631,7 +654,8 @@ def write_evidence(pid, prop, tier, seed, harnesses, results, extra, scan, cg, n
                         verification_time_s=r.get("verification_time_s"), wall_s=r.get("wall_s"), stubs=r.get("stubs"),
                         unwindset=h.unwindset or None))
         for c in cs:
-            if len(samples) < 6 and re.search(r"assertion", c["id"]) and len([s for s in samples if s["harness"] == h.name]) < 1:
+            if len(samples) < 8 and is_clause(c) and len([s for s in samples if s["harness"] == h.name]) < 1 and \
+                    not any(s["clause"] == c["description"] for s in samples):
                 samples.append(dict(harness=h.name, obligation=c["id"], clause=c["description"], status=c["status"], location=c["location"]))
     for x in extra:
         obligations += x.get("obligations", 0)
